@@ -235,7 +235,7 @@ impl WmoWriter {
     ) -> Result<()> {
         let header = ChunkHeader {
             id: chunks::MOHD,
-            size: 60, // Fixed size for header (without padding)
+            size: 64, // Fixed size of the MOHD header
         };
 
         header.write(writer)?;
@@ -257,6 +257,9 @@ impl WmoWriter {
 
         writer.write_u32_le(color_bytes)?;
 
+        // WMO ID (WMOAreaTable reference), not carried by WmoRoot
+        writer.write_u32_le(0)?;
+
         // Flags - adjust for version differences
         let mut flags = wmo.header.flags;
 
@@ -267,8 +270,6 @@ impl WmoWriter {
             flags &= !WmoFlags::HAS_SKYBOX;
         }
 
-        writer.write_u32_le(flags.bits())?;
-
         // Bounding box
         writer.write_f32_le(wmo.bounding_box.min.x)?;
         writer.write_f32_le(wmo.bounding_box.min.y)?;
@@ -277,6 +278,10 @@ impl WmoWriter {
         writer.write_f32_le(wmo.bounding_box.max.x)?;
         writer.write_f32_le(wmo.bounding_box.max.y)?;
         writer.write_f32_le(wmo.bounding_box.max.z)?;
+
+        // Flags and number of LOD levels close the header (u16 each)
+        writer.write_u16_le(flags.bits() as u16)?;
+        writer.write_u16_le(0)?;
 
         Ok(())
     }
